@@ -590,7 +590,12 @@ func (w *world) step(i int, op Op) error {
 				opErr = fmt.Errorf("verif: no signer for the target")
 				for _, s := range signers {
 					if key != nil && bytes.Equal(s.PublicKey().Marshal(), key.Marshal()) {
-						sig, opErr = s.Sign(rand.Reader, data)
+						// with flags: through the signer's algorithm-selecting entry point, as an ssh client does
+						if as, ok := s.(ssh.AlgorithmSigner); ok && (op.Flags == 2 || op.Flags == 4) {
+							sig, opErr = as.SignWithAlgorithm(rand.Reader, data, map[int]string{2: ssh.KeyAlgoRSASHA256, 4: ssh.KeyAlgoRSASHA512}[op.Flags])
+						} else {
+							sig, opErr = s.Sign(rand.Reader, data)
+						}
 						break
 					}
 				}
@@ -887,6 +892,10 @@ func (w *world) step(i int, op Op) error {
 			}
 			if verr := verifyKey.Verify(data, sig); verr != nil {
 				return Errf("%s on %s: signature does not verify under the identity's key: %v", where, keyDesc, verr)
+			}
+			// an RSA identity asked for SHA-2 (flags 2 / 4) answers in that algorithm, as the underlying agent would
+			if want, ok := map[int]string{2: ssh.KeyAlgoRSASHA256, 4: ssh.KeyAlgoRSASHA512}[op.Flags]; ok && verifyKey.Type() == ssh.KeyAlgoRSA && sig.Format != want {
+				return Errf("%s on %s with flags %d: signature algorithm %q, the underlying agent would answer %q", where, keyDesc, op.Flags, sig.Format, want)
 			}
 			w.tr.SignChecks++
 		}
